@@ -367,6 +367,18 @@ func eq(a, b []string) bool {
 	return true
 }
 
+func eqExact(a, b []string) bool {
+	if len(a) != len(b) {
+		return false
+	}
+	for i := range a {
+		if a[i] != b[i] {
+			return false
+		}
+	}
+	return true
+}
+
 func sortedSig(s []string) []string {
 	t := make([]string, len(s))
 	for i, x := range s {
@@ -782,7 +794,9 @@ func checkState(o *harness.Outcome, step int, model []rset, scribble bool) bool 
 					w = sortedSig(w)
 				}
 				wantAll = append(wantAll, ids(l)...)
-				if !eq(perRes[key], w) {
+				// what the getters report is what was loaded, IDs included (the rule OBJECT a controller holds may be
+				// that of an earlier load with the same fields - enforced[] below is compared by content)
+				if (m == rs.System && !eq(perRes[key], w)) || (m != rs.System && !eqExact(perRes[key], w)) {
 					o.Fail("C13.getter-mismatch", step, "%s: getter of %s reports %v, the valid rules of the latest load are %v", rs.ModuleName[m], key, perRes[key], w)
 					return
 				}
@@ -803,7 +817,7 @@ func checkState(o *harness.Outcome, step int, model []rset, scribble bool) bool 
 					return
 				}
 			}
-			if !eq(sortedSig(all), sortedSig(wantAll)) {
+			if (m == rs.System && !eq(sortedSig(all), sortedSig(wantAll))) || (m != rs.System && !eqExact(sorted(all), sorted(wantAll))) {
 				o.Fail("C13.getter-mismatch", step, "%s: GetRules reports %v, the valid rules of the latest loads are %v", rs.ModuleName[m], sorted(all), sorted(wantAll))
 				return
 			}
